@@ -258,6 +258,7 @@ enum Op {
     Set(usize, usize),
     ClearVariables,
     SetFunction,
+    SetFunctionNamedLikeAVariable,
     Disable(bool),
     Assign(&'static str),
     /// replace the context by deserialize(serialize(context)): deserialized contexts are reachable
@@ -274,6 +275,10 @@ fn apply(c: &mut HCtx, op: &Op, pool: &[EV]) {
         Op::ClearVariables => c.clear_variables(),
         Op::SetFunction => {
             c.set_function("f".into(), Function::new(|a| Ok(a.clone()))).unwrap();
+        },
+        Op::SetFunctionNamedLikeAVariable => {
+            // variables and functions are separate namespaces: `a` may be both
+            c.set_function("a".into(), Function::new(|a| Ok(a.clone()))).unwrap();
         },
         Op::Disable(b) => {
             c.set_builtin_functions_disabled(*b).unwrap();
@@ -328,11 +333,50 @@ fn check_context(c: &HCtx, history: &str, st: &mut Stats) {
             return;
         },
     };
+    // the same through a second output configuration of the same format: pretty-printed, with struct names
+    // written out (a Deserialize that expects another struct name than Serialize writes fails only here)
+    let pretty = ron::ser::PrettyConfig::new().struct_names(true);
+    match guarded(|| ron::ser::to_string_pretty(c, pretty.clone())) {
+        Ok(Ok(ptext)) => match guarded(|| ron::de::from_str::<HCtx>(&ptext)) {
+            Ok(Ok(b2)) => {
+                st.evaluations += 1;
+                st.count("b/contexts-round-tripped-with-struct-names");
+                if observe(&b2) != observe(c) || b2.are_builtin_functions_disabled() != c.are_builtin_functions_disabled() {
+                    st.violation(Viol {
+                        kind: "context-round-trip-differs".into(),
+                        input: format!("{{\"history\": {}, \"ron\": {}}}", esc(history), esc(&ptext)),
+                        expected: format!("variables {:?}, builtins disabled {}", observe(c), c.are_builtin_functions_disabled()),
+                        actual: format!("variables {:?}, builtins disabled {}", observe(&b2), b2.are_builtin_functions_disabled()),
+                    });
+                    return;
+                }
+            },
+            other => {
+                st.violation(Viol {
+                    kind: "context-does-not-deserialize".into(),
+                    input: format!("{{\"history\": {}, \"ron\": {}}}", esc(history), esc(&ptext)),
+                    expected: "deserializes (pretty output with struct names)".into(),
+                    actual: format!("{:?}", other.map(|r| r.map(|_| ()))),
+                });
+                return;
+            },
+        },
+        other => {
+            st.violation(Viol {
+                kind: "context-does-not-serialize".into(),
+                input: input.clone(),
+                expected: "serializes (pretty output with struct names)".into(),
+                actual: format!("{:?}", other.map(|r| r.map(|_| ()))),
+            });
+            return;
+        },
+    }
     st.count("b/contexts-round-tripped");
     if observe(c).len() >= 2 {
         st.nontrivial += 1;
     }
-    let no_function = matches!(back.call_function("f", &Value::Empty), Err(EvalexprError::FunctionIdentifierNotFound(_)));
+    let no_function = matches!(back.call_function("f", &Value::Empty), Err(EvalexprError::FunctionIdentifierNotFound(_)))
+        && matches!(back.call_function("a", &Value::Empty), Err(EvalexprError::FunctionIdentifierNotFound(_)));
     if observe(&back) != observe(c) || back.are_builtin_functions_disabled() != c.are_builtin_functions_disabled() || !no_function {
         st.violation(Viol {
             kind: "context-round-trip-differs".into(),
@@ -373,6 +417,7 @@ fn part_contexts(depth: usize, st: &mut Stats) {
     }
     ops.push(Op::ClearVariables);
     ops.push(Op::SetFunction);
+    ops.push(Op::SetFunctionNamedLikeAVariable);
     ops.push(Op::Disable(true));
     ops.push(Op::Disable(false));
     ops.push(Op::Assign("a = 1.0 / 3; B = (a, \"x\", ()); b = 2"));
@@ -464,7 +509,7 @@ fn write_outputs(tier: &str, seed: u64, st: &Stats, wall: f64) -> i32 {
         st.states,
         st.transitions,
         st.transitions,
-        esc("(a) depth-first search over every token sequence up to the tier's length over a 14-token alphabet and every character string up to the tier's length over 25 characters (quotes, backslashes, newline, multi-byte, signs, digits, dot, e, x, punctuation), each encoded as a RON string with ron::ser::to_string and decoded as Node: Ok trees must equal build_operator_tree(s), Err messages must equal error.to_string(); (b) every HashMapContext reachable by API histories up to the tier's depth over {set_value of 4 names (two differing only in case, one with a space and a non-ASCII letter, the empty name) x a value pool of all six types incl. i64 extremes, signed zero, subnormal, infinities, NaN, nested/empty tuples, hostile strings; clear_variables; set_function; builtin switch on/off; expression assignments; replacing the context by its own deserialized copy, so that histories continue from deserialized contexts}: from_str(to_string(c)) must have the same sorted variable map (floats by bits), the same switch and resolve no user function; plus every pool value as a bare Value; plus scaling families (expressions of n terms / nesting depth n / strings of n escapes, contexts with n variables incl. case-colliding names and an n-tuple, n in 1..20 and up to 129 / 1..40 and up to 400). A state is a token/character prefix or a context history; a transition appends a token or applies an operation; every state is executed on the implementation. Non-trivial = sources of >= 3 bytes and contexts with >= 2 variables (each enumerated once)"),
+        esc("(a) depth-first search over every token sequence up to the tier's length over a 14-token alphabet and every character string up to the tier's length over 25 characters (quotes, backslashes, newline, multi-byte, signs, digits, dot, e, x, punctuation), each encoded as a RON string with ron::ser::to_string and decoded as Node: Ok trees must equal build_operator_tree(s), Err messages must equal error.to_string(); (b) every HashMapContext reachable by API histories up to the tier's depth over {set_value of 4 names (two differing only in case, one with a space and a non-ASCII letter, the empty name) x a value pool of all six types incl. i64 extremes, signed zero, subnormal, infinities, NaN, nested/empty tuples, hostile strings; clear_variables; set_function (also under the name of a variable); builtin switch on/off; expression assignments; replacing the context by its own deserialized copy, so that histories continue from deserialized contexts}: from_str(to_string(c)), and the same through pretty output with struct names, must have the same sorted variable map (floats by bits), the same switch and resolve no user function; plus every pool value as a bare Value; plus scaling families (expressions of n terms / nesting depth n / strings of n escapes, contexts with n variables incl. case-colliding names and an n-tuple, n in 1..20 and up to 129 / 1..40 and up to 400). A state is a token/character prefix or a context history; a transition appends a token or applies an operation; every state is executed on the implementation. Non-trivial = sources of >= 3 bytes and contexts with >= 2 variables (each enumerated once)"),
         samples,
         counters,
         [
